@@ -10,7 +10,8 @@ import (
 )
 
 // the functions translated in write-back mode
-var writeBackFuncs = map[string]bool{"updateValuesForKeyPath": true, "updateValue": true, "updateValueForKey": true, "Map.UpdateValuesForPath": true}
+var writeBackFuncs = map[string]bool{"updateValuesForKeyPath": true, "updateValue": true, "updateValueForKey": true, "Map.UpdateValuesForPath": true,
+	"prevValueByPath": true, "remove": true, "renameKey": true, "Map.Remove": true, "Map.RenameKey": true, "parentPath": true}
 
 type aliasOrigin struct {
 	parent *lvar
@@ -41,6 +42,8 @@ func (t *fnTr) writeBackStr(lv *lvar) string {
 			} else {
 				out += "let " + p.name + " := set " + o.key + " " + boxByKind(lv) + " " + p.name + " in "
 			}
+		case "lens":
+			out += "let " + p.name + " := " + o.key + " " + lv.name + " in "
 		case "asmap", "aslist":
 			out += "let " + p.name + " := " + boxByKind(lv) + " in "
 		case "same":
@@ -80,6 +83,13 @@ func aliasGraph(p *pkgInfo, fd *ast.FuncDecl) map[types.Object][]types.Object {
 			if tv, ok := p.info.Types[c.Fun]; ok && tv.IsType() && len(c.Args) == 1 {
 				if r := rootOf(c.Args[0]); r != nil {
 					roots = append(roots, r)
+				}
+			} else {
+				// the result of a call may be part of any tree handed to it
+				for _, a := range c.Args {
+					if r := rootOf(a); r != nil {
+						roots = append(roots, r)
+					}
 				}
 			}
 		}
@@ -153,6 +163,11 @@ func (t *fnTr) mutatedRoots(list []ast.Stmt) []types.Object {
 					}
 				}
 			case *ast.CallExpr:
+				if id, ok := x.Fun.(*ast.Ident); ok && id.Name == "delete" && len(x.Args) == 2 {
+					if _, isB := t.p.info.Uses[id].(*types.Builtin); isB {
+						mark(x.Args[0])
+					}
+				}
 				var callee *types.Func
 				switch f := x.Fun.(type) {
 				case *ast.Ident:
